@@ -443,6 +443,10 @@ func (SignatureProofScheme) ValidateFinalizedProof(
 	// The bits indicating which keys in the original set have been used so far.
 	// This value is used throughout the rest loop.
 	var usedOriginalBits bitset.BitSet
+	if !combinationIndexInRange(nKeys, k, &combIndex) {
+		// Invalid/corrupted key ID: decoding it would be a caller bug.
+		return nil, false
+	}
 	decodeCombinationIndex(nKeys, k, &combIndex, &usedOriginalBits)
 
 	aggMainKey := new(blst.P2)
@@ -511,6 +515,10 @@ func (SignatureProofScheme) ValidateFinalizedProof(
 			// Corrupt/invalid key ID.
 			return nil, false
 		}
+		if !combinationIndexInRange(len(reducedKeys), k, &combIndex) {
+			// Corrupt/invalid key ID.
+			return nil, false
+		}
 		decodeCombinationIndex(len(reducedKeys), k, &combIndex, &reducedProofBits)
 
 		// Project back to original key set and check for duplicates.
@@ -560,6 +568,19 @@ func (SignatureProofScheme) ValidateFinalizedProof(
 	}
 
 	return signBitsByHash, true
+}
+
+// combinationIndexInRange reports whether combIndex names a k-element subset of nKeys keys,
+// i.e. 1 <= k <= nKeys and combIndex < C(nKeys, k).
+// Key IDs of finalized proofs arrive from the network, so this must be checked
+// before calling decodeCombinationIndex, which panics outside that range.
+func combinationIndexInRange(nKeys, k int, combIndex *big.Int) bool {
+	if k < 1 || k > nKeys {
+		return false
+	}
+	var count big.Int
+	binomialCoefficient(nKeys, k, &count)
+	return combIndex.Cmp(&count) < 0
 }
 
 // decodeCombinationIndex accepts n, k, and the combination index,
